@@ -126,6 +126,7 @@ def libJson : LibOp String Json → Json
   | .openIdx c => Json.mkObj [("op", "open_idx"), ("create", c)]
   | .newWriter => Json.mkObj [("op", "new_writer")]
   | .add d => Json.mkObj [("op", "add"), ("doc", d)]
+  | .addBatch docs => Json.mkObj [("op", "add_batch"), ("docs", Json.arr docs.toArray)]
   | .delete ids => Json.mkObj [("op", "delete"), ("ids", Json.arr (ids.map Json.str).toArray)]
   | .commit => Json.mkObj [("op", "commit")]
   | .rollbackIfFailed => Json.mkObj [("op", "rollback_if_failed")]
@@ -162,7 +163,9 @@ def handle (req : Json) : Except String Json := do
     | none => return Json.mkObj [("result", "none")]
   | "denote" =>
     let f ← frontOf (← req.getObjVal? "front")
-    return Json.mkObj [("ops", Json.arr ((denote f).map libJson).toArray)]
+    -- `"legacy": true`: the HTTP handlers before 69e89dd
+    let ops := if getBoolD req "legacy" false then denoteLegacy f else denote f
+    return Json.mkObj [("ops", Json.arr (ops.map libJson).toArray)]
   | "run" =>
     -- the contents semantics over a whole front-end script
     let script ← (← getArr req "script").toList.mapM frontOf
